@@ -323,16 +323,17 @@ C06_ArrayView_C ==
     /\ NoDupArrays(doc)                                                        \* (i) no duplication
     /\ \A x \in ShownIn(doc) : x \in Objects(Post) => Alive(Post, x)           \* (ii) no ghosts
     /\ \A a \in DOMAIN doc.arrays : a \in Objects(Post) =>
-         LET lo == LeafOrders(Post, DPost, a)
-             w == Post.orders[OKey(a, Post.winner[a])].seq
-             ll == DPost.leaves[a]
-         IN
-         /\ \A s \in lo : \A x \in Rng(s) : Alive(Post, x) => x \in DOMAIN doc.objs   \* (iii) no loss: shown in some array or directly under a flattened key
-         /\ \A x \in Rng(doc.arrays[a]) : \E s \in lo : x \in Rng(s)                 \* (iv) no invention
-         /\ Sub(doc.arrays[a], Rng(w)) = Sub(w, Rng(doc.arrays[a]))        \* (v) winner's order kept
-         /\ (Cardinality(ll) = 2 =>
-               \A s \in lo : AgreeOnCommon(s, w) =>
-                   Sub(doc.arrays[a], Rng(s)) = Sub(s, Rng(doc.arrays[a])))
+         /\ OKey(a, Post.winner[a]) \in DOMAIN Post.orders        \* a shown array has a winner whose stored order is known
+         /\ LET lo == LeafOrders(Post, DPost, a)
+                w == Post.orders[OKey(a, Post.winner[a])].seq
+                ll == DPost.leaves[a]
+            IN
+            /\ \A s \in lo : \A x \in Rng(s) : Alive(Post, x) => x \in DOMAIN doc.objs   \* (iii) no loss: shown in some array or directly under a flattened key
+            /\ \A x \in Rng(doc.arrays[a]) : \E s \in lo : x \in Rng(s)                 \* (iv) no invention
+            /\ Sub(doc.arrays[a], Rng(w)) = Sub(w, Rng(doc.arrays[a]))        \* (v) winner's order kept
+            /\ (Cardinality(ll) = 2 =>
+                  \A s \in lo : AgreeOnCommon(s, w) =>
+                      Sub(doc.arrays[a], Rng(s)) = Sub(s, Rng(doc.arrays[a])))
 
 (* C16 — stored array versions reconstruct to what was submitted *)
 C16_Reconstructs_A == Acting /\ HasObs(Post) /\ Post.full /\ ~Damaged
@@ -480,7 +481,8 @@ X_ResolveStep_C ==
         ne == NewEntries(x)
         re == {e \in ne : ~TIsRes(e.rev)}
         mk == {e \in ne : TIsRes(e.rev)}
-    IN /\ \A y \in Objects(Post) \ {x} : y \in Objects(pre) /\ DPost.tree[y] = dpre.tree[y]
+    IN /\ x \in Objects(Post)
+       /\ \A y \in Objects(Post) \ {x} : y \in Objects(pre) /\ DPost.tree[y] = dpre.tree[y]
        /\ \A e \in ne : e.st
        /\ Cardinality(re) <= 1 /\ \A e \in re : e.par = pre.winner[x]
        /\ {e.par : e \in mk} = Core!LiveLeaves(dpre.tree[x] \cup re) \ {Post.winner[x]}
@@ -510,7 +512,7 @@ X_CommitStep_C ==
     /\ Objects(Post) = Objects(pre)
     /\ \A x \in Objects(pre) : ~IsArr(x) => {[rev |-> e.rev, par |-> e.par] : e \in DPost.tree[x]} = {[rev |-> e.rev, par |-> e.par] : e \in dpre.tree[x]}
     /\ \A x \in Objects(Post) : \A e \in DPost.tree[x] : ~e.st
-    /\ \A b \in Core!Blocks(NewItems) : \A c \in b.changes : \E e \in DPost.tree[c.o] : e.rev = c.rev /\ e.par = c.prev
+    /\ \A b \in Core!Blocks(NewItems) : \A c \in b.changes : c.o \in Objects(Post) /\ \E e \in DPost.tree[c.o] : e.rev = c.rev /\ e.par = c.prev
 
 \* the object-level API: create_object / update_object / delete_object / remove_object
 ObjOp == Acting /\ E.op \in {"ObjCreate", "ObjUpdate", "ObjDelete", "ObjRemove"} /\ OkRes /\ Has2
